@@ -184,9 +184,11 @@ PROPS = {
     # C07 also rides on the aggregate suites, where it owns "the operands and the caller's slice are left alone": a line whose
     # result digest is right but whose operand digests / slice verdict differ (a wrong result is C11's)
     "C07": {"suites": [("alias", 1.0), ("agg", 0.5), ("r64", 0.3)], "modules": ["RProofs.Heap"], "corpus": ["corpus/C07/failed-read-into-cow-clone.txt"],
+            # `aggindep` edits an aggregate's result (or an input) chunk by chunk and re-observes everything else: any disagreement there is a
+            # failure of independence (also when the edited result itself is wrong: its own chunks alias one another)
             # 64-bit counterparts: in the `r64` suite only the sharing observations are this property's (`alias64`: a bucket reachable from two
             # objects must be flagged in both; `dig64`: an input re-observed after its result was edited)
-            "owns_fn": lambda op, mm, suite: (op in ("alias64", "dig64")) if suite.split(":")[-1] == "r64" else ("agg" not in suite) or (op in AGG_OPS | {"dig"} and
+            "owns_fn": lambda op, mm, suite: (op in ("alias64", "dig64")) if suite.split(":")[-1] == "r64" else ("agg" not in suite) or (op == "aggindep" and not mm.get("got", "").startswith("panic")) or (op in AGG_OPS | {"dig"} and
             mm.get("expected", "").split(" ")[:1] == mm.get("got", "").split(" ")[:1] and not mm.get("got", "").startswith("panic")),
             "theorems": ["RModel.Impl.safe_nil", "RModel.Impl.safe_iff", "RModel.Impl.safe_unflagged_private",
                          "RModel.Impl.safe_gate", "RModel.Impl.safe_cloneBitmap", "RModel.Impl.safe_appendCopy",
